@@ -153,7 +153,39 @@ def lint_program(P: Program) -> Tuple[List[OrderIssue], Dict[str, int]]:
                         continue
                     issues.append(OrderIssue("distinct_on" if n.func.attr == "distinct_on" else "limit",
                                              f".{n.func.attr}(…) without .order_by(…)", f.qualname, f.module.rel, n.lineno, src(top)[:120]))
+    issues.extend(frame_issues(P))
     return issues, {"skeletons": nsk, "macros": len(macros), "over_clauses": nwin}
+
+
+def frame_issues(P: Program) -> List[OrderIssue]:
+    """Window frames built by code rather than written in a skeleton: a ROWS/RANGE frame is order-sensitive, so the statement
+    that adds it to an OVER clause must be conditioned on an ORDER BY being emitted too (a conjunct / enclosing test on the
+    node's order_by)."""
+    out: List[OrderIssue] = []
+    seen = 0
+    for f in P.iter_functions():
+        if not f.module.name.startswith(sqlx.SQL_MODULE_PREFIXES):
+            continue
+        for n in walk_no_nested(f.node):
+            if not (isinstance(n, ast.Call) and isinstance(n.func, ast.Attribute) and n.func.attr == "visit_Windowing"):
+                continue
+            seen += 1
+            ordered = False
+            p = getattr(n, "_parent", None)
+            while p is not None and not isinstance(p, (ast.FunctionDef, ast.AsyncFunctionDef)):
+                if isinstance(p, (ast.If, ast.IfExp)):
+                    conj = p.test.values if isinstance(p.test, ast.BoolOp) and isinstance(p.test.op, ast.And) else [p.test]
+                    inbody = any(n is x for st in (p.body if isinstance(p, ast.If) else [p.body]) for x in ast.walk(st))
+                    if inbody and any(src(c).endswith(".order_by") for c in conj):
+                        ordered = True
+                p = getattr(p, "_parent", None)
+            if not ordered:
+                out.append(OrderIssue("window", "frame-without-order-by", f.qualname, f.module.rel, n.lineno,
+                                      "a ROWS/RANGE frame (visit_Windowing) is added to the OVER clause whether or not the node has an order_by: "
+                                      "`sum(DS_1 over (partition by Id_1))` gets ROWS BETWEEN UNBOUNDED PRECEDING AND CURRENT ROW with no ORDER BY"))
+    if seen == 0:
+        raise AnalysisError("no call of visit_Windowing found in the SQL-emitting modules (anchor of the frame rule vanished)")
+    return out
 
 
 def premise(P: Program) -> Dict[str, str]:
